@@ -187,6 +187,10 @@ NUMS = [
     {'t': 'frac', 'v': '1/8'}, {'t': 'frac', 'v': '22/7'},
     {'t': 'float', 'v': '0.5'}, {'t': 'float', 'v': '0.25'},
     {'t': 'float', 'v': '2.5'},
+    # a float that is not what it looks like (0.1 is 3602879701896397 / 2**55)
+    # and a ratio with a 32-digit numerator: exact all the same
+    {'t': 'float', 'v': '0.1'},
+    {'t': 'frac', 'v': '10000000000000000000000000000019/3'},
     {'t': 'prefix', 'v': 'KILO'}, {'t': 'prefix', 'v': 'MILLI'},
     {'t': 'prefix', 'v': 'NANO'}, {'t': 'prefix', 'v': 'MEGA'},
     {'t': 'prefix', 'v': 'CENTI'}, {'t': 'prefix', 'v': 'HECTO'},
